@@ -110,7 +110,8 @@ def run_bus_part(ctx, rnd):
             if r2["status"] == "agree":
                 r2["flaky"] = True
             res[i] = r2
-    stats = {"agree": 0, "differ": 0, "aborted": 0, "model-error": 0, "flaky": 0, "steps": 0}
+    stats = {"agree": 0, "differ": 0, "aborted": 0, "model-error": 0, "flaky": 0, "steps": 0, "nontrivial_distinct": 0}
+    nontrivial_seen = set()
     known = load_known()
     classes, dist = set(), {}
     seen = set()
@@ -125,6 +126,9 @@ def run_bus_part(ctx, rnd):
             stats["steps"] += len(r["case"][4])
             cl = nontrivial_classes(r["case"][4], r["model_raw"])
             classes |= cl
+            if cl - {"spawn"} and key not in nontrivial_seen:
+                nontrivial_seen.add(key)
+                stats["nontrivial_distinct"] += 1
             for c in cl:
                 dist[c] = dist.get(c, 0) + 1
             n_sp = sum(t.count("sp.") for t in r["model_raw"])
@@ -180,16 +184,21 @@ def run_parser_part(ctx, rnd):
         rep.violation("harness activation_h crashed (sanitizer/assertion) on: %s: %s" % (l[:200], e[-600:]), {"line": l, "stderr": e})
     diffs = 0
     outcome = {}
+    nontrivial = 0
+    special = set(b"\"'\\#\n\t ")
     for l, i, m in zip(lines, ires, mres):
         k = l.split(" ")[0] + ":" + i.split(" ")[0]
         outcome[k] = outcome.get(k, 0) + 1
+        raw = bytes.fromhex(l.split(" ")[1]) if l.split(" ")[1] != "-" else b""
+        if (l.startswith("shell") and special & set(raw)) or (l.startswith("desk") and b"[" in raw and b"=" in raw):
+            nontrivial += 1
         if i != m and i != "!CRASH":
             diffs += 1
             if diffs <= 5:
                 rep.violation("parser model and implementation disagree on `%s`: implementation %s, model %s" % (l[:300], i[:200], m[:200]),
                               {"line": l, "impl": i, "model": m, "names": "Helper.shell_parse / Helper.desktop_load vs dbus-shell.c / desktop-file.c"},
                               found_input=True)
-    return len(lines), diffs, outcome, lines[:3]
+    return len(lines), diffs, outcome, nontrivial
 
 
 def run_helper_part(ctx, rnd):
@@ -215,7 +224,10 @@ def run_helper_part(ctx, rnd):
     mres, mcr = vlib.run_lines(info["model_activation"], lines)
     ires = af.run_helper_cases(helper_exe, cases, workers=min(12, vlib.NPROC))
     diffs, outcome, samples = 0, {}, []
+    reached_file = set()
     for c, l, m, (i, err) in zip(cases, lines, mres, ires):
+        if not (i.startswith("exit 5") or i.startswith("exit 6")):
+            reached_file.add(l)
         if "AddressSanitizer" in err or "runtime error" in err or "assertion failed" in err.lower() or i.startswith("exit 99") or i.startswith("exit -"):
             rep.violation("launch helper crashed or reported a sanitizer/assertion failure: %s %s" % (i, err[-500:]), {"case": l, "stderr": err[-3000:]})
             continue
@@ -233,6 +245,7 @@ def run_helper_part(ctx, rnd):
             known_helper(rep, c, l, i)
         if len(samples) < 6 and i.startswith("exec"):
             samples.append({"name": c[0].decode("latin1"), "result": i[:120]})
+    outcome["_reached_file_distinct"] = len(reached_file)
     return len(cases), diffs, outcome, samples
 
 
@@ -299,7 +312,7 @@ def run(ctx):
     rep, tier = ctx["rep"], ctx["tier"]
     rnd = random.Random(ctx["seed"] * 7919 + 19)
     t0 = time.time()
-    n_lines, pdiffs, poutcome, _ = run_parser_part(ctx, rnd)
+    n_lines, pdiffs, poutcome, p_nontrivial = run_parser_part(ctx, rnd)
     t1 = time.time()
     n_helper, hdiffs, houtcome, hsamples = run_helper_part(ctx, rnd)
     t2 = time.time()
@@ -311,10 +324,13 @@ def run(ctx):
             samples.append({"label": r["case"][0], "services": [list(s) for s in r["case"][2]], "events": " ".join(r["case"][4]), "daemon": " ".join(r["impl"])})
     rep.coverage.update({
         "evaluations": len(res) + n_lines + n_helper,
-        "distinct_nontrivial": len(classes) + len([k for k in houtcome]) + len(poutcome),
-        "rule": "bus: %d distinct histories; non-trivial = classes of behaviour reached on histories where daemon and model agreed: %s. "
-                "helper: distinct outcomes of dbus-daemon-launch-helper-for-tests: %s.  parsers: outcome kinds %s" % (
-                    distinct, sorted(classes), sorted(houtcome), sorted(poutcome)),
+        "distinct_nontrivial": stats["nontrivial_distinct"] + houtcome.get("_reached_file_distinct", 0) + p_nontrivial,
+        "rule": "measured sum of three counts.  bus: %d distinct (configuration, event list) histories, %d of them non-trivial = daemon and model agreed and "
+                "at least one step resolved, refused or failed an activation (classes reached: %s).  helper: %d distinct invocations in which the helper got as far "
+                "as a service file (any outcome but name-invalid / not-found).  parsers: %d distinct inputs containing quoting/comment/blank characters "
+                "(command lines) or a section header and a '=' (files).  outcome kinds: helper %s, parsers %s" % (
+                    distinct, stats["nontrivial_distinct"], sorted(classes), houtcome.get("_reached_file_distinct", 0), p_nontrivial,
+                    sorted(k for k in houtcome if not k.startswith("_")), sorted(poutcome)),
         "samples": samples[:8] + hsamples[:4],
         "input_distribution": {"bus_classes": dist, "bus_status": stats, "helper_outcomes": houtcome, "parser_outcomes": poutcome},
         "traces_validated_against_impl": stats["agree"], "steps_compared": stats["steps"],
